@@ -26,11 +26,17 @@ func InitGenesis(ctx sdk.Context, k keeper.Keeper, data types.GenesisState) {
 			panic(fmt.Errorf("unknown servcie request context: %s", entry.Feed.RequestContextID))
 		}
 
-		for _, value := range entry.Values {
+		// values are exported newest first; store each under its own batch counter,
+		// descending from the current one, so that none overwrites another and the
+		// order is kept
+		for i, value := range entry.Values {
+			if uint64(i) > reqCtx.BatchCounter {
+				break
+			}
 			k.SetFeedValue(
 				ctx,
 				entry.Feed.FeedName,
-				reqCtx.BatchCounter,
+				reqCtx.BatchCounter-uint64(i),
 				entry.Feed.LatestHistory,
 				value,
 			)
